@@ -97,12 +97,38 @@ def extracted_wire(repo):
     return tr.gen_module("onl/netdev/wire.py: Wire.put", "wire_st", "w_", [("packets_rec", "Z")], "wire_fx", WIRE_CONS, [spec])
 
 
+# Wire.run, the server process, cut at its yields (vlib/translate_gen.py): Gen/Extracted_wire_run.v; bridged to the WInit /
+# WGet u d / WTimer steps of Elem/Wire.v by coq/Elem/WireRunBridge.v; obligations in Props/C10_BridgeRun.v
+WIRE_RUN_READS = [("self.loss_rate", "loss_rate", "optQ"),          # None | number: `not self.loss_rate`
+                  ("self.env.now", "now", "Q"), ("env.now", "now", "Q"),
+                  ("packet.current_time", "current_time", "Q"),
+                  ("self.debug", "debug", "bool"),
+                  ("self.out", "out_set", "optobj")]
+WIRE_RUN_DRAWS = [("random.uniform(0, 1)", "u", "Q", "FxUniform"),  # consumed only where Python evaluates it
+                  ("self.delay_dist()", "dd", "Q", "FxDelayDist")]
+WIRE_RUN_FX = [("self.out.put(packet)", "FxOutPut", [])]
+WIRE_RUN_FX_CONS = [("FxUniform", ""), ("FxDelayDist", ""), ("FxOutPut", "")]
+WIRE_RUN_REQUESTS = [("self.store.get()", "RqStoreGet", [], "obj"),  # resumes with the packet
+                     ("env.timeout(_1)", "RqTimeout", ["Q"], None),
+                     ("self.env.timeout(_1)", "RqTimeout", ["Q"], None)]
+WIRE_RUN_REQ_CONS = [("RqStoreGet", ""), ("RqTimeout", "(d : Q)")]
+
+
+def extracted_wire_run(repo):
+    import os
+    from vlib import translate_gen as tg
+    spec = tg.GenSpec(os.path.join(repo, "onl", "netdev", "wire.py"), "Wire", "run", "gen_Wire_run", reads=WIRE_RUN_READS,
+                      draws=WIRE_RUN_DRAWS, effects=WIRE_RUN_FX, requests=WIRE_RUN_REQUESTS, objects=["packet"])
+    return tg.gen_run_module("onl/netdev/wire.py: Wire.run", spec, [], None, "", "wire_run_fx", WIRE_RUN_FX_CONS,
+                             WIRE_RUN_REQ_CONS, types="wire_run")
+
+
 class WirePart:
     name = "wire"
     kinds = ["wire", "cable"]
     serves = ["C10", "C08"]
     coq_imports = ["From ONL Require Import Base.Cmp Elem.Packet Elem.StoreQ Elem.Wire Elem.Cable."]
-    props_files = {"C10": ["Props/C10.v", "Props/C10_Bridge.v"], "C08": ["Props/C08_Wire.v"]}
+    props_files = {"C10": ["Props/C10.v", "Props/C10_Bridge.v", "Props/C10_BridgeRun.v"], "C08": ["Props/C08_Wire.v"]}
 
     # ---- second tie: regenerate the translated body before the Coq build (fail closed) ----------------
     def pre_build(self, prop_id):
@@ -112,6 +138,7 @@ class WirePart:
         from vlib import framework as fw
         from vlib import translate as tr
         tr.write_if_changed(os.path.join(fw.COQ, "Gen", "Extracted_wire.v"), extracted_wire(fw.REPO))
+        tr.write_if_changed(os.path.join(fw.COQ, "Gen", "Extracted_wire_run.v"), extracted_wire_run(fw.REPO))
 
     weight = 1
     nontrivial_rule = {
@@ -130,7 +157,12 @@ class WirePart:
                 "Initialize/Timeout events apart",
                 "vlib/translate.py (Python ast, fail closed; tables above the part class in props/part_wire.py) regenerates "
                 "coq/Gen/Extracted_wire.v from Wire.put of the tree under test before every build; C10_gen_wire_put "
-                "(Props/C10_Bridge.v) bridges it to the WPut step of the hand-written model; print() calls are ignored"],
+                "(Props/C10_Bridge.v) bridges it to the WPut step of the hand-written model; print() calls are ignored",
+                "vlib/translate_gen.py (same subset and tables, plus the cut of a generator body at its yields; tables "
+                "WIRE_RUN_* in props/part_wire.py) regenerates coq/Gen/Extracted_wire_run.v from Wire.run before every build; the "
+                "C10_gen_wire_run_* theorems (Props/C10_BridgeRun.v, proofs Elem/WireRunBridge.v) prove the automaton's WInit / "
+                "WGet / WTimer steps equal to the generated functions, with exactly the draws the code consumes; that the kernel "
+                "resumes the generator exactly at these steps stays with the per-run correspondence"],
         "C08": ["packet identity is the Python object identity recorded by the harness taps (uid = creation index)"],
     }
     assumptions = {
